@@ -4,8 +4,8 @@ import TxV.Model.Sched
 /-!
 Line-protocol front end of the core model (JSON design parser, canonical printing).
 Kept in the library (compiled to .olean once) so that `lean --run Driver/Core.lean` only has to
-elaborate a three-line file.  The two `hyp` checks are parameters: the driver instantiates them
-with `TxV.Core.Bridge.staticOk` / `cycleOk` (the decidable hypotheses of the Props theorems).
+elaborate a three-line file.  The `hyp` checks are parameters: the driver instantiates them
+with `TxV.Core.Bridge.staticOk` / `readyDepLeftOk` / `cycleOk` (the decidable hypotheses of the Props theorems).
 -/
 open TxV TxV.Proto TxV.CoreModel Lean
 namespace TxV.CoreProto
@@ -97,7 +97,7 @@ def showAssoc (l : List (Nat × List Nat)) : String :=
 def sortedByKey (n : Nat) (l : List (Nat × List Nat)) : List (Nat × List Nat) :=
   (List.range n).filterMap fun k => (l.find? (·.1 == k)).map fun (k, vs) => (k, (List.range n).filter vs.contains)
 
-def summary (hypS : Design → Elab → List Nat → Bool) (D : Design) (E : Elab) (order : Option (List Nat)) : String :=
+def summary (hypS : Design → Elab → List Nat → Bool) (hypR : Design → Bool) (D : Design) (E : Elab) (order : Option (List Nat)) : String :=
   let n := D.bodies.length
   let edges := E.g.edgeList n
   let cgr := if edges.isEmpty then "-" else ",".intercalate (edges.map fun (a, b) => s!"{a}-{b}")
@@ -106,7 +106,7 @@ def summary (hypS : Design → Elab → List Nat → Bool) (D : Design) (E : Ela
   let vo := match order with | some o => validOrder E.g.before D.transactions o | none => false
   -- `hyp`: the static hypotheses of the Props theorems hold for this design (TxV.Core.Bridge.staticOk)
   let hyp := match order with | some o => hypS D E o | none => false
-  s!"ok mbt={showAssoc (sortedByKey n E.mm.mbt)} tbm={showAssoc (sortedByKey n E.mm.tbm)} cgr={cgr} ccs={ccsS} vo={showBool vo} hyp={showBool hyp}"
+  s!"ok mbt={showAssoc (sortedByKey n E.mm.mbt)} tbm={showAssoc (sortedByKey n E.mm.tbm)} cgr={cgr} ccs={ccsS} vo={showBool vo} hyp={showBool hyp} rdl={showBool (hypR D)}"
 
 def showNats (l : List Nat) : String := showList l
 
@@ -135,7 +135,7 @@ def evalLine (hypC : Design → Elab → List Nat → Val → (Nat → Bool) →
     let res := st.sites.map fun (_, c) => doutOf c.callee
     s!"rn={showBits rn} run={showBits runs} act={showBits act} din={showNats din} dout={showNats dout} res={showNats res} hx={showBool (exclHoldsOn v st.sp st.bp)} cons={showBool (consistentEager D E v st.order run)} hyp={showBool (hypC D E st.order v run)}"
 
-def stepLine (hypS : Design → Elab → List Nat → Bool)
+def stepLine (hypS : Design → Elab → List Nat → Bool) (hypR : Design → Bool)
     (hypC : Design → Elab → List Nat → Val → (Nat → Bool) → Bool)
     (st : Option St) (line : String) : Option St × String :=
   let line := line.trimAscii.toString
@@ -155,7 +155,7 @@ def stepLine (hypS : Design → Elab → List Nat → Bool)
                            ts := ids.filter D.transactions.contains, ms := ids.filter D.methods.contains,
                            sites := (List.range nSites).filterMap fun s => D.allSites.find? (·.2.site == s),
                            sp := exclSitePairs D, bp := exclBodyPairs D }
-          (some st, summary hypS D E order)
+          (some st, summary hypS hypR D E order)
   else
     let t := tokens line
     match t.head?, st with
